@@ -21,11 +21,11 @@ def sh(cmd, cwd=None, env=None, timeout=600):
     return p.returncode, (p.stdout + p.stderr)
 
 
-def run_checks():
+def run_checks(tree="/repo"):
     m = json.load(open(os.path.join(VERIF, "MANIFEST.json")))
     out = {}
     for c in m["checks"]:
-        code, txt = sh(f"PYTHONPATH={VERIF} /venv/bin/python - <<'EOF'\nfrom tpsa.cli import run_check\nreps=[]\nc=run_check('{c['property_id']}','quick','/repo',0,write=False,rep_out=reps)\nr=reps[0]\nimport json\nprint(json.dumps({{'code':c,'viol':[o.rule+' '+o.func+' :: '+o.what[:90]+' :: '+o.construct[:70] for o in r.violations()],'inc':[o.rule+' '+o.what[:80] for o in r.inconclusive()]+r.notes}}))\nEOF", cwd=VERIF)
+        code, txt = sh(f"PYTHONPATH={VERIF} /venv/bin/python - <<'EOF'\nfrom tpsa.cli import run_check\nreps=[]\nc=run_check('{c['property_id']}','quick','{tree}',0,write=False,rep_out=reps)\nr=reps[0]\nimport json\nprint(json.dumps({{'code':c,'viol':[o.rule+' '+o.func+' :: '+o.what[:90]+' :: '+o.construct[:70] for o in r.violations()],'inc':[o.rule+' '+o.what[:80] for o in r.inconclusive()]+r.notes}}))\nEOF", cwd=VERIF)
         try:
             out[c["property_id"]] = json.loads(txt.strip().splitlines()[-1])
         except Exception:
@@ -60,18 +60,12 @@ def main():
         ran.append(f"suite with change: {ot.strip()}")
         c1, o1 = sh(f"timeout -s KILL 120 /venv/bin/python {d}/demo.py", cwd=tmp, env=env)
         ran.append(f"demo with change: exit {c1}: {o1.strip()[-300:]}")
+        # run the checks against the scratch tree that carries the change (/repo itself is not touched)
+        res = run_checks(tmp)
     finally:
         sh(f"git -C /repo worktree remove --force {tmp}")
         shutil.rmtree(tmp, ignore_errors=True)
     confirmed = c0 == 0 and c1 == 1 and "112 passed" in ot
-    # run checks against it
-    st, _ = sh("git -C /repo status --porcelain")
-    assert not _.strip(), "/repo not clean"
-    sh(f"git -C /repo apply {d}/patch.diff")
-    try:
-        res = run_checks()
-    finally:
-        sh("git -C /repo checkout -- .")
     caught = {p: r["viol"] for p, r in res.items() if r["code"] == 1}
     inconc = {p: r["inc"] for p, r in res.items() if r["code"] == 2}
     meta = {"id": sid, "property": prop, "needs_to_manifest": needs, "confirmed": confirmed, "ran": ran,
